@@ -71,8 +71,11 @@ func (rs *runState) reach(ctx context.Context) {
 // call sequence, made with metadata objects that outlive the call (reuse.go).
 type callPlan struct {
 	hdr, trlEarly, trlLate []mdOp
+	preHdr                 []mdOp          // trailer calls the handler makes before its header calls
 	ctx                    context.Context // the caller's outgoing context (nil: from the case)
 	creds                  credentials.PerRPCCredentials
+	afterSend              func() // the handler, after its response messages and before the late trailer calls (streams)
+	afterNewStream         func() // the caller, as soon as NewStream has returned (streams)
 }
 
 func (rs *runState) ops() (hdr, early, late []mdOp) {
@@ -122,6 +125,9 @@ func (rs *runState) headerCalls(ops []mdOp, ss grpc.ServerStream, ctx context.Co
 			accumulate(rs.hdrSet, want)
 		}
 		rs.mu.Unlock()
+		if op.Then != nil {
+			op.Then()
+		}
 	}
 }
 
@@ -142,6 +148,9 @@ func (rs *runState) trailerCalls(ops []mdOp, ss grpc.ServerStream, ctx context.C
 			accumulate(rs.trlSet, want)
 		}
 		rs.mu.Unlock()
+		if op.Then != nil {
+			op.Then()
+		}
 	}
 }
 
@@ -182,6 +191,9 @@ func (w *worker) unary(ctx context.Context, dec func(interface{}) error) (interf
 	}
 	rs.reach(ctx)
 	hdr, early, late := rs.ops()
+	if rs.plan != nil {
+		rs.trailerCalls(rs.plan.preHdr, nil, ctx)
+	}
 	rs.headerCalls(hdr, nil, ctx)
 	rs.trailerCalls(early, nil, ctx)
 	rs.trailerCalls(late, nil, ctx)
@@ -217,6 +229,9 @@ func (w *worker) stream(clientStreams bool) common.StreamFn {
 			}
 		}
 		hdr, early, late := rs.ops()
+		if rs.plan != nil {
+			rs.trailerCalls(rs.plan.preHdr, ss, ctx)
+		}
 		rs.headerCalls(hdr, ss, ctx)
 		rs.trailerCalls(early, ss, ctx)
 		n := rs.c.NResp
@@ -227,6 +242,9 @@ func (w *worker) stream(clientStreams bool) common.StreamFn {
 			if err := ss.SendMsg(wrapperspb.String("resp")); err != nil {
 				rs.note("handler SendMsg: %v", err)
 			}
+		}
+		if rs.plan != nil && rs.plan.afterSend != nil {
+			rs.plan.afterSend()
 		}
 		rs.trailerCalls(late, ss, ctx)
 		if rs.c.Fail {
@@ -491,6 +509,9 @@ func (w *worker) drive(cc grpc.ClientConnInterface, c Case, id string, plan *cal
 	if err != nil {
 		obs.callErr, obs.newStream = err, true
 		return obs
+	}
+	if plan != nil && plan.afterNewStream != nil {
+		plan.afterNewStream()
 	}
 	if err := cs.SendMsg(req); err != nil {
 		obs.sendErr = err
